@@ -8,7 +8,7 @@ rsync -a --exclude .git --exclude '*.o' --exclude '*.a' --exclude tests-output /
 ( cd "$S" && patch -p1 -s -f --no-backup-if-mismatch -i "$P" ) || { echo "patch does not apply"; rm -rf "$S"; exit 3; }
 cd /verif
 for id in "$@"; do
-	VERIF_EVIDENCE_DIR="$S/_ev" python3 sa/check.py "$id" --tier quick --repo "$S" > "$S/out.txt" 2>&1
+	VERIF_EVIDENCE_DIR="$S/_ev" python3 sa/check.py "$id" --tier ${TIER:-quick} --repo "$S" > "$S/out.txt" 2>&1
 	echo "[$id] exit=$?"
 	grep -v "^VIOLATION\|^KNOWN-FINDING\|obligations" "$S/out.txt" | cut -c1-330 | tail -5
 done
